@@ -118,7 +118,14 @@ def noz_compose(check, proj):
             check.violation("NOZ-COMPOSE", init.qualname, "the constructor writes the composed (user + geometric) sources back into the CALLER's source list: a second model built from the same list gets the first nozzle's geometric sources added again, and None entries are no longer empty", loc, key="caller-list")
         else:
             check.ok("NOZ-COMPOSE", "%s [user sources %s]" % (init.qualname, tag), "the caller's source list is left untouched", loc, nontrivial=False)
-        calls = [c for c in it.ev.base_init_calls if "source" in c[2]]
+        # arguments of the base constructor bound by ITS signature (positional or keyword)
+        calls = []
+        for ci_, args_, kw_ in it.ev.base_init_calls:
+            binit = proj.resolve(ci_, "__init__")
+            bound = dict(zip(binit.params, args_)) if binit is not None else {}
+            bound.update(kw_)
+            if "source" in bound:
+                calls.append((ci_, args_, bound))
         if len(calls) != 1:
             check.undecided("NOZ-COMPOSE", init.qualname, "source list passed to the base constructor not found", loc)
             return
